@@ -26,10 +26,12 @@ VARIABLES
   cnt,       \* tid -> <<alloc, dealloc, realloc>> counts of the timed section
   calls,     \* tid -> calls in this run
   rounds, panicSeen, bad,
-  lastSize   \* sample size of the last executed round
+  lastSize,  \* sample size of the last executed round
+  curCnt,    \* <<tid, kind>> -> sum of the per-input counter values of this round
+  expCnt     \* kind -> per-iteration counter values the stored samples must carry
 
 vars == <<l, sc, phase, p, st, initStart, tsStart, tsEnd, cnt, calls, rounds,
-          panicSeen, bad, lastSize>>
+          panicSeen, bad, lastSize, curCnt, expCnt>>
 
 Is(e) == l <= Len(Rec) /\ Rec[l].ev = e /\ l' = l + 1
 R == Rec[l]
@@ -57,35 +59,35 @@ IsTest(s) == s.action = "test"
 Init ==
   /\ l = 1 /\ sc = [entry |-> "none"] /\ phase = "none" /\ p = P0 /\ st = S0
   /\ initStart = -1 /\ tsStart = <<>> /\ tsEnd = <<>> /\ cnt = <<>>
-  /\ calls = <<>> /\ rounds = 0 /\ panicSeen = FALSE /\ bad = {} /\ lastSize = 0
+  /\ calls = <<>> /\ rounds = 0 /\ panicSeen = FALSE /\ bad = {} /\ lastSize = 0 /\ curCnt = <<>> /\ expCnt = [k \in 0..3 |-> <<>>]
 
 TrReset ==
   /\ Is("reset") /\ sc' = R.scenario /\ phase' = "none" /\ p' = P0 /\ st' = S0
   /\ initStart' = -1 /\ tsStart' = <<>> /\ tsEnd' = <<>> /\ cnt' = <<>>
-  /\ calls' = <<>> /\ rounds' = 0 /\ panicSeen' = FALSE /\ bad' = {} /\ lastSize' = 0
+  /\ calls' = <<>> /\ rounds' = 0 /\ panicSeen' = FALSE /\ bad' = {} /\ lastSize' = 0 /\ curCnt' = <<>> /\ expCnt' = [k \in 0..3 |-> <<>>]
 
 TrBenchCall ==
   /\ Is("bench_call") /\ phase' = "called"
-  /\ UNCHANGED <<sc, p, st, initStart, tsStart, tsEnd, cnt, calls, rounds, panicSeen, bad, lastSize>>
+  /\ UNCHANGED <<sc, p, st, initStart, tsStart, tsEnd, cnt, calls, rounds, panicSeen, bad, lastSize, curCnt, expCnt>>
 
 TrPrecBegin ==
   /\ Is("precision_begin") /\ phase' = "prec"
-  /\ UNCHANGED <<sc, p, st, initStart, tsStart, tsEnd, cnt, calls, rounds, panicSeen, bad, lastSize>>
+  /\ UNCHANGED <<sc, p, st, initStart, tsStart, tsEnd, cnt, calls, rounds, panicSeen, bad, lastSize, curCnt, expCnt>>
 TrPrecEnd ==
   /\ Is("precision_end") /\ phase' = "called"
-  /\ UNCHANGED <<sc, p, st, initStart, tsStart, tsEnd, cnt, calls, rounds, panicSeen, bad, lastSize>>
+  /\ UNCHANGED <<sc, p, st, initStart, tsStart, tsEnd, cnt, calls, rounds, panicSeen, bad, lastSize, curCnt, expCnt>>
 
 \* Timestamps of the precision measurement are not part of the loop.
 TrTsPrec ==
   /\ Is("ts") /\ phase = "prec"
-  /\ UNCHANGED <<sc, phase, p, st, initStart, tsStart, tsEnd, cnt, calls, rounds, panicSeen, bad, lastSize>>
+  /\ UNCHANGED <<sc, phase, p, st, initStart, tsStart, tsEnd, cnt, calls, rounds, panicSeen, bad, lastSize, curCnt, expCnt>>
 
 \* The timestamp read before the loop starts is the initial start.
 TrTsInitial ==
   /\ Is("ts") /\ phase = "called"
   /\ initStart' = R.value
   /\ bad' = bad \cup Flag(R.kind # "start" \/ R.tid # 0, "C04:initial_timestamp_kind")
-  /\ UNCHANGED <<sc, phase, p, st, tsStart, tsEnd, cnt, calls, rounds, panicSeen, lastSize>>
+  /\ UNCHANGED <<sc, phase, p, st, tsStart, tsEnd, cnt, calls, rounds, panicSeen, lastSize, curCnt, expCnt>>
 
 TrInitialStart ==
   /\ Is("initial_start")
@@ -93,7 +95,7 @@ TrInitialStart ==
        \cup Flag(R.taken # (initStart # -1), "C04:initial_start_event_mismatch")
        \* elapsed time includes external time unless skip_ext_time is set
        \cup Flag(R.taken = OptSkip(sc), "C04:initial_start_vs_skip_ext_time")
-  /\ UNCHANGED <<sc, phase, p, st, initStart, tsStart, tsEnd, cnt, calls, rounds, panicSeen, lastSize>>
+  /\ UNCHANGED <<sc, phase, p, st, initStart, tsStart, tsEnd, cnt, calls, rounds, panicSeen, lastSize, curCnt, expCnt>>
 
 TrLoopBegin ==
   /\ Is("loop_begin")
@@ -115,25 +117,30 @@ TrLoopBegin ==
           \cup Flag(R.min # OptMin(sc) \/ R.max # OptMax(sc) \/ R.skip # OptSkip(sc),
                     "C04:time_options_not_as_configured")
   /\ phase' = "running" /\ tsStart' = <<>> /\ tsEnd' = <<>> /\ cnt' = <<>>
-  /\ UNCHANGED <<sc, initStart, calls, rounds, panicSeen, lastSize>>
+  /\ UNCHANGED <<sc, initStart, calls, rounds, panicSeen, lastSize, curCnt, expCnt>>
 
 TrTsRound ==
   /\ Is("ts") /\ phase = "running"
   /\ IF R.kind = "start"
        THEN tsStart' = Put(tsStart, R.tid, R.value) /\ UNCHANGED tsEnd
        ELSE tsEnd' = Put(tsEnd, R.tid, R.value) /\ UNCHANGED tsStart
-  /\ UNCHANGED <<sc, phase, p, st, initStart, cnt, calls, rounds, panicSeen, bad, lastSize>>
+  /\ UNCHANGED <<sc, phase, p, st, initStart, cnt, calls, rounds, panicSeen, bad, lastSize, curCnt, expCnt>>
 
 TrSnapshot ==
   /\ Is("tally_snapshot")
   /\ cnt' = Put(cnt, R.tid, <<R.info.alloc[1], R.info.dealloc[1],
                               R.info.grow[1] + R.info.shrink[1]>>)
-  /\ UNCHANGED <<sc, phase, p, st, initStart, tsStart, tsEnd, calls, rounds, panicSeen, bad, lastSize>>
+  /\ UNCHANGED <<sc, phase, p, st, initStart, tsStart, tsEnd, calls, rounds, panicSeen, bad, lastSize, curCnt, expCnt>>
 
 TrCall ==
   /\ Is("call")
   /\ calls' = Put(calls, R.tid, Get(calls, R.tid, 0) + 1)
-  /\ UNCHANGED <<sc, phase, p, st, initStart, tsStart, tsEnd, cnt, rounds, panicSeen, bad, lastSize>>
+  /\ UNCHANGED <<sc, phase, p, st, initStart, tsStart, tsEnd, cnt, rounds, panicSeen, bad, lastSize, curCnt, expCnt>>
+
+TrCount ==
+  /\ Is("count")
+  /\ curCnt' = Put(curCnt, <<R.tid, R.kind>>, Get(curCnt, <<R.tid, R.kind>>, 0) + R.value)
+  /\ UNCHANGED <<sc, phase, p, st, initStart, tsStart, tsEnd, cnt, calls, rounds, panicSeen, bad, lastSize, expCnt>>
 
 Threads == 0..(p.T - 1)
 HaveReadings == \A t \in Threads : t \in DOMAIN tsStart /\ t \in DOMAIN tsEnd
@@ -171,6 +178,12 @@ TrRoundEnd ==
             nsamples |-> R.nsamples]
   /\ rounds' = rounds + 1 /\ tsStart' = <<>> /\ tsEnd' = <<>> /\ cnt' = <<>>
   /\ lastSize' = st.size
+  \* per-input counters (C05): per-iteration value = sum over the sample's
+  \* inputs divided by the sample size; tuning rounds discard earlier data (C19)
+  /\ expCnt' = [k \in 0..3 |->
+        (IF st.mode = "tune" THEN <<>> ELSE expCnt[k])
+        \o [i \in 1..p.T |-> Get(curCnt, <<i - 1, k>>, 0) \div (IF st.size = 0 THEN 1 ELSE st.size)]]
+  /\ curCnt' = <<>>
   /\ UNCHANGED <<sc, phase, p, initStart, calls, panicSeen>>
 
 TrTestBreak ==
@@ -178,11 +191,11 @@ TrTestBreak ==
   /\ bad' = bad \cup Flag(~p.test, "C03:test_break_in_bench_mode")
                 \cup Flag(rounds # 0, "C03:test_mode_more_than_one_round")
   /\ rounds' = rounds + 1 /\ tsStart' = <<>> /\ tsEnd' = <<>> /\ cnt' = <<>>
-  /\ UNCHANGED <<sc, phase, p, st, initStart, calls, panicSeen, lastSize>>
+  /\ UNCHANGED <<sc, phase, p, st, initStart, calls, panicSeen, lastSize, curCnt, expCnt>>
 
 TrUserPanic ==
   /\ Is("user_panic") /\ panicSeen' = TRUE
-  /\ UNCHANGED <<sc, phase, p, st, initStart, tsStart, tsEnd, cnt, calls, rounds, bad, lastSize>>
+  /\ UNCHANGED <<sc, phase, p, st, initStart, tsStart, tsEnd, cnt, calls, rounds, bad, lastSize, curCnt, expCnt>>
 
 AllCalls(k) == \A t \in Threads : Get(calls, t, 0) = k
 NoForeignCalls == \A t \in DOMAIN calls : t \in Threads \/ calls[t] = 0
@@ -205,7 +218,7 @@ TrBenchReturn ==
          \cup Flag(PlainCounted /\ st.nsamples # p.T * CeilDiv(p.n, p.T), "C03:recorded_samples_total")
          \cup Flag(~NoForeignCalls, "C03:call_on_foreign_thread"))
   /\ phase' = "returned"
-  /\ UNCHANGED <<sc, p, st, initStart, tsStart, tsEnd, cnt, calls, rounds, panicSeen, lastSize>>
+  /\ UNCHANGED <<sc, p, st, initStart, tsStart, tsEnd, cnt, calls, rounds, panicSeen, lastSize, curCnt, expCnt>>
 
 TrReport ==
   /\ Is("report")
@@ -217,17 +230,22 @@ TrReport ==
                  "C03:reported_samples_figure")
        \cup Flag(R.stats_status = "ok" /\ R.stats.iter_count # Len(R.durations) * R.sample_size,
                  "C03:reported_iters_figure")
+       \cup (IF phase = "returned" /\ st.mode # "none" /\ ~p.test /\
+                \E i \in DOMAIN sc.input_counters : R.counts[sc.input_counters[i] + 1] # expCnt[sc.input_counters[i]]
+             THEN {"C05:per_input_counter_values_differ_from_the_samples_inputs"}
+                  \cup Flag(p.sOpt = -1, "C19:counter_data_of_earlier_rounds_not_discarded")
+             ELSE {})
        \cup Flag(R.stats_status = "ok" /\ st.mode # "none" /\ Len(R.durations) > 0 /\ R.sample_size # lastSize,
                  "C19:reported_sample_size_is_not_the_final_size"))
-  /\ UNCHANGED <<sc, phase, p, st, initStart, tsStart, tsEnd, cnt, calls, rounds, panicSeen, lastSize>>
+  /\ UNCHANGED <<sc, phase, p, st, initStart, tsStart, tsEnd, cnt, calls, rounds, panicSeen, lastSize, curCnt, expCnt>>
 
 TrOther ==
   /\ l <= Len(Rec) /\ Rec[l].ev \in {"report_failed", "sched_end"} /\ l' = l + 1
-  /\ UNCHANGED <<sc, phase, p, st, initStart, tsStart, tsEnd, cnt, calls, rounds, panicSeen, bad, lastSize>>
+  /\ UNCHANGED <<sc, phase, p, st, initStart, tsStart, tsEnd, cnt, calls, rounds, panicSeen, bad, lastSize, curCnt, expCnt>>
 
 TrNext ==
   \/ TrReset \/ TrBenchCall \/ TrPrecBegin \/ TrPrecEnd \/ TrTsPrec \/ TrTsInitial
-  \/ TrInitialStart \/ TrLoopBegin \/ TrTsRound \/ TrSnapshot \/ TrCall
+  \/ TrInitialStart \/ TrLoopBegin \/ TrTsRound \/ TrSnapshot \/ TrCall \/ TrCount
   \/ TrRoundEnd \/ TrTestBreak \/ TrUserPanic \/ TrBenchReturn \/ TrReport
   \/ TrOther
 
